@@ -1,5 +1,5 @@
 (* Ops.v — composite operations exposed to the correspondence check (end to end from bytes). *)
-From GQL.model Require Import Base Utf8 Lexer Ast Parser Prog ParseQuery ParseSchema Json Format Schema Walk Rules Rules2 Validate.
+From GQL.model Require Import Base Utf8 Lexer Ast Parser Prog ParseQuery ParseSchema Json Format Schema Walk Rules Rules2 Validate Link.
 From GQL.gen Require Import Prelude.
 
 Definition dump_json_roundtrip (d : dev) (input : str) : str :=
@@ -85,5 +85,16 @@ Definition dump_validate_with (d : dev) (pre : pres sdoc) (rules query : str) (s
     match parseQuery d 0 query with
     | PErr e => b "query-" ++ dump_perr e
     | POk doc => b "ok " ++ dump_verrs (validate_with s doc (select_rules s doc rules))
+    end
+  end.
+
+(* the annotated document after a validation with the default rules (C09) *)
+Definition dump_link_with (d : dev) (pre : pres sdoc) (query : str) (srcs : list str) : str :=
+  match load_schema_with d pre srcs with
+  | None => b "schema-err"
+  | Some s =>
+    match parseQuery d 0 query with
+    | PErr e => b "query-" ++ dump_perr e
+    | POk doc => (if nil_ (validate s doc) then b "valid " else b "invalid ") ++ link_doc s doc
     end
   end.
